@@ -19,7 +19,7 @@ from ..worlds import relay
 ID = "C16"
 LEVEL = "exploration"
 CHUNK = 40
-BUDGET = {"quick": {"runs": 4000, "wall": 150}, "thorough": {"runs": 100000, "wall": 3000}}
+BUDGET = {"quick": {"runs": 4000, "wall": 150}, "thorough": {"runs": 100000, "wall": 1200}}
 RULE = ("pipelines = random subsets/orders of {is_not_too_large, is_signed, is_recent, is_certain_kind, "
         "is_author_whitelisted, is_author_blacklisted, is_pow, is_not_hellthread, is_service_event, "
         "dynamic_lists.is_pubkey_allowed} (is_signed always present) with random bounds; per run 4-14 "
